@@ -23,6 +23,7 @@ import (
 	"verif/internal/c17"
 	"verif/internal/c18"
 	"verif/internal/c19"
+	"verif/internal/c20"
 )
 
 func init() {
@@ -45,6 +46,7 @@ func init() {
 	monitors["C17"] = c17.Run
 	monitors["C18"] = c18.Run
 	monitors["C19"] = c19.Run
+	monitors["C20"] = c20.Run
 }
 
 // workerMain dispatches crash-isolated child workers (C13, C14, C15).
